@@ -51,6 +51,43 @@ Theorem C19_env_oracle_accepts_model : forall e n,
 Proof. exact env_spec_ok_model. Qed.
 Print Assumptions C19_env_oracle_accepts_model.
 
+(* the result of get is a VALUE (its own string object): what a get returned — the variable's value at that moment, the
+   default, or the raise — is what a read of that result finds at once and after ANY further history: later gets of the
+   same or other variables through either overload, setenv / unsetenv of the same variable, other reads.
+   h_run / h_step: histories over { setenv, unsetenv, the three gets, read result k } that keep every result ever produced *)
+Theorem C19_get_result_is_value : forall st o r more,
+  env_res (henv st) o = Some r ->
+  snd (h_step (h_run (fst (h_step st (HOp o))) more) (HRead (length (hres st)))) = Some r.
+Proof. exact get_result_is_value. Qed.
+Print Assumptions C19_get_result_is_value.
+
+Theorem C19_held_result_stable : forall st ops k r,
+  nth_error (hres st) k = Some r -> nth_error (hres (h_run st ops)) k = Some r.
+Proof. exact held_result_stable. Qed.
+Print Assumptions C19_held_result_stable.
+
+(* two results held at the same time (f(get(a), get(b)), two reference bindings) each keep their own outcome *)
+Theorem C19_two_held_results_independent : forall st o1 o2 r1 r2 mid more,
+  env_res (henv st) o1 = Some r1 ->
+  let st1 := h_run (fst (h_step st (HOp o1))) mid in
+  env_res (henv st1) o2 = Some r2 ->
+  let st2 := h_run (fst (h_step st1 (HOp o2))) more in
+  snd (h_step st2 (HRead (length (hres st)))) = Some r1 /\ snd (h_step st2 (HRead (length (hres st1)))) = Some r2.
+Proof. exact two_held_results_independent. Qed.
+Print Assumptions C19_two_held_results_independent.
+
+(* ... and that outcome is the one the three clauses demand for the environment of the moment of the get *)
+Theorem C19_result_obeys_clauses : forall e o r,
+  env_res e o = Some r ->
+  match o with
+  | EGet n d => env_spec_ok (env_lookup e n) (Some d) r = true
+  | EGetDefaulted n => env_spec_ok (env_lookup e n) (Some []) r = true
+  | EGetNoDefault n => env_spec_ok (env_lookup e n) None r = true
+  | _ => False
+  end.
+Proof. exact env_res_spec_ok. Qed.
+Print Assumptions C19_result_obeys_clauses.
+
 (* ---------------- nitro::dl ---------------- *)
 
 (* dlclose is called at most once on every handle *)
@@ -198,5 +235,10 @@ Example C19_ex_late_read : snd (x_step w0 (x_run w0 (x_init 3) [XOp (DOpen 0 5);
 Proof. reflexivity. Qed.
 Example C19_ex_env_empty : env_run [] [ESet (B "X") (B ""); EGet (B "X") (B "dflt"); EGetNoDefault (B "X"); EUnset (B "X"); EGet (B "X") (B "dflt"); EGetNoDefault (B "X")]
   = [EOk (B ""); EOk (B ""); EOk (B "dflt"); ERaise].
+Proof. reflexivity. Qed.
+Example C19_ex_held_results :
+  h_obs (h_init []) [HOp (ESet (B "A") (B "alpha")); HOp (ESet (B "B") (B "beta")); HOp (EGetNoDefault (B "A")); HOp (EGet (B "U") (B "dflt"));
+                     HOp (EGetDefaulted (B "B")); HOp (ESet (B "A") (B "changed")); HOp (EUnset (B "B")); HOp (EGetNoDefault (B "B")); HRead 0; HRead 1; HRead 2; HRead 3]
+  = [Some (EOk (B "alpha")); Some (EOk (B "dflt")); Some (EOk (B "beta")); Some ERaise].
 Proof. reflexivity. Qed.
 End Examples.
